@@ -410,6 +410,12 @@ func genRingPolys(t *rapid.T) ringPolys {
 		maxN = 10
 	}
 	rp := gen.DrawRings(t, "rp", maxRings, maxN)
+	if rapid.IntRange(0, 5).Draw(t, "hug") == 0 {
+		// shell of long edges + a hole one edge of which lies along a shell edge
+		if h, ok := gen.HugRings(t, "h", gen.SpecialCenter(t, "hc"), rapid.Float64Range(0.05, 0.6).Draw(t, "hugr")); ok {
+			rp = h
+		}
+	}
 	k := len(rp.Rings)
 	c := ringPolys{R: rp}
 	for i := 0; i < k; i++ {
@@ -451,7 +457,13 @@ func checkRingPolys(c ringPolys) ev.Outcome {
 		o.Skip = true
 		return o
 	}
-	if pa.Validate() != nil || pb.Validate() != nil {
+	if ea, eb := pa.Validate(), pb.Validate(); ea != nil || eb != nil {
+		if constructionValid([]gen.RingsPolygon{c.R}, func(_, i int) bool { return ea != nil && c.SA[i] || ea == nil && c.SB[i] }) {
+			o.Err = fmt.Sprintf("Polygon.Validate rejects a polygon whose rings are exactly non-crossing and properly nested: %v %v", ea, eb)
+			o.Finding = "nesting"
+			o.NonTrivial = true
+			return o
+		}
 		o.Skip = true
 		return o
 	}
@@ -620,6 +632,13 @@ func genMultiPolys(t *rapid.T) multiPolys {
 		centre := s2.Point{Vector: gen.FaceUVToXYZ(faces[f], 0, 0)}
 		k := rapid.IntRange(1, 3).Draw(t, "rings")
 		rp := gen.DrawRingsAt(t, fmt.Sprintf("f%d", f), centre, k, maxN, 25*math.Pi/180)
+		if rapid.IntRange(0, 3).Draw(t, "hug") == 0 {
+			// a shell of long edges and a hole one edge of which lies along a shell
+			// edge (strictly inside, within rounding): bounds differ by rounding only
+			if h, ok := gen.HugRings(t, fmt.Sprintf("h%d", f), centre, rapid.Float64Range(0.05, 0.4).Draw(t, "hugr")); ok {
+				rp, k = h, 2
+			}
+		}
 		c.F = append(c.F, rp)
 		var sa, sb []bool
 		for i := 0; i < k; i++ {
@@ -679,7 +698,21 @@ func checkMultiPolys(c multiPolys) ev.Outcome {
 		return s2.PolygonFromLoops(loops)
 	}
 	pa, pb := build(c.SA, c.Perm), build(c.SB, nil)
-	if pa == nil || pb == nil || pa.Validate() != nil || pb.Validate() != nil {
+	if pa == nil || pb == nil {
+		o.Skip = true
+		return o
+	}
+	if ea, eb := pa.Validate(), pb.Validate(); ea != nil || eb != nil {
+		sel := c.SA
+		if ea == nil {
+			sel = c.SB
+		}
+		if constructionValid(c.F, func(f, i int) bool { return f < len(sel) && i < len(sel[f]) && sel[f][i] }) {
+			o.Err = fmt.Sprintf("Polygon.Validate rejects a polygon whose rings are exactly non-crossing and properly nested: %v %v", ea, eb)
+			o.Finding = "polygon-nesting"
+			o.NonTrivial = true
+			return o
+		}
 		o.Skip = true
 		return o
 	}
@@ -792,9 +825,9 @@ func init() {
 		Rule:  "two rings of a family of strictly nested star rings about one centre (or one ring and a far-away loop about the antipode), each optionally complemented, one with rotated start vertex; truth = band atoms from the construction. Non-trivial: both > 32 vertices and multi-cell indexes (the path the unit tests never reach).",
 		Quick: 36000, Thorough: 400000}, genDiscPair, checkDiscPair)
 	ev.Define("polygon_multi", ev.Options{
-		Rule:  "polygons assembled from shuffled subsets of 1..3 families of strictly nested rings about distinct cube-face centres (several top-level shells, holes, islands), each polygon optionally complemented with Polygon.Invert(); truth = set algebra on band atoms + the rest of the sphere; Contains/Intersects (symmetric), the complement laws with Invert()ed copies, double inversion, ContainsPoint at the family centres. Non-trivial: A has ≥ 2 top-level shells or a polygon is complemented.",
+		Rule:  "polygons assembled from shuffled subsets of 1..3 families of strictly nested rings about distinct cube-face centres (several top-level shells, holes, islands; a quarter of the families is a shell of 4..8 long edges and a triangular hole one edge of which lies strictly inside but within rounding of a shell edge; Validate rejections are decided the same way as in polygon_rings), each polygon optionally complemented with Polygon.Invert(); truth = set algebra on band atoms + the rest of the sphere; Contains/Intersects (symmetric), the complement laws with Invert()ed copies, double inversion, ContainsPoint at the family centres. Non-trivial: A has ≥ 2 top-level shells or a polygon is complemented.",
 		Quick: 24000, Thorough: 300000}, genMultiPolys, checkMultiPolys)
 	ev.Define("polygon_rings", ev.Options{
-		Rule:  "polygons assembled by PolygonFromLoops from shuffled subsets of up to 5 (1 in 8: 15) strictly nested rings: IsHole ⇔ odd number of enclosing input loops, Parent() = next enclosing selected ring; Polygon.Contains/Intersects between two such polygons = set algebra on band atoms (shared rings are bit-identical boundaries). Non-trivial: A has ≥ 2 loops and > 32 vertices.",
+		Rule:  "polygons assembled by PolygonFromLoops from shuffled subsets of up to 5 (1 in 8: 15) strictly nested rings (1 in 6: a shell of 4..8 long edges and a triangular hole one edge of which lies strictly inside but within rounding of a shell edge); a polygon that Validate rejects is reported when exact predicates confirm the rings are non-crossing and properly nested, skipped otherwise: IsHole ⇔ odd number of enclosing input loops, Parent() = next enclosing selected ring; Polygon.Contains/Intersects between two such polygons = set algebra on band atoms (shared rings are bit-identical boundaries). Non-trivial: A has ≥ 2 loops and > 32 vertices.",
 		Quick: 24000, Thorough: 300000}, genRingPolys, checkRingPolys)
 }
